@@ -438,3 +438,24 @@ mod validity {
         if errors.is_empty() { Ok(()) } else { Err(errors) }
     }
 }
+
+/// Verification-only entry points (feature `trustfall_verif`).
+#[cfg(feature = "trustfall_verif")]
+pub mod verif_hooks {
+    use crate::{
+        graphql_query::directives::OperatorArgument,
+        ir::{Argument, LocalField, Operation, Type},
+    };
+
+    /// The variable type the frontend infers for a `$variable` used as the argument of
+    /// the given operator on a property of the given type. `None` if the frontend refuses.
+    pub fn infer_variable_type(property_type: Type, operation: &Operation<(), ()>) -> Option<Type> {
+        let operation = operation.map(|_| (), |_| OperatorArgument::VariableRef("v".into()));
+        super::infer_variable_type("p", property_type, &operation).ok()
+    }
+
+    /// Whether the frontend's operand type check accepts the given filter.
+    pub fn operand_types_valid(operation: &Operation<LocalField, Argument>) -> bool {
+        super::operand_types_valid(operation, None).is_ok()
+    }
+}
